@@ -246,6 +246,77 @@ func runUnbound(sc *Scenario) (res Result) {
 		}
 		return res
 	}
+	// Twin: a second pipe of the same element type is alive for the whole scenario (own context, own values);
+	// it must behave as if it were alone, and so must the pipe under test.
+	var twinRcv <-chan int
+	var twinSnd chan<- int
+	twinCtx, twinCancel := context.WithCancel(context.Background())
+	defer func() {
+		// whatever happened, let the twin's pump flush so that the bubble can end
+		twinCancel()
+		u.stopOnce.Do(func() { close(u.envStop) })
+		for k := 0; twinRcv != nil && k < 1000; k++ {
+			synctest.Wait()
+			select {
+			case _, ok := <-twinRcv:
+				if !ok {
+					return
+				}
+			default:
+				return
+			}
+		}
+	}()
+	const twinBase, twinN = 7000, 5
+	twinSent := make(chan struct{})
+	if sc.Twin {
+		twinRcv, twinSnd = pipe.New[int](twinCtx, sc.Caps0())
+		go func() {
+			defer close(twinSent)
+			for v := 1; v <= twinN; v++ {
+				select {
+				case twinSnd <- twinBase + v:
+				case <-u.envStop:
+					return
+				}
+			}
+		}()
+	}
+	twinCheck := func() string {
+		if !sc.Twin {
+			return ""
+		}
+		select {
+		case <-twinSent:
+		default:
+			return "twin pipe (own context, never touched by the script): its five sends have not all returned at quiescence"
+		}
+		if sc.Mode == "close" {
+			twinCancel() // the other way of ending than the pipe under test
+		} else {
+			close(twinSnd)
+		}
+		var got []int
+		for k := 0; k < 1000; k++ {
+			synctest.Wait()
+			select {
+			case v, ok := <-twinRcv:
+				if !ok {
+					if len(got) != twinN {
+						return fmt.Sprintf("twin pipe (own context): delivered %v and closed, sent %d..%d", got, twinBase+1, twinBase+twinN)
+					}
+					return ""
+				}
+				got = append(got, v)
+				if v != twinBase+len(got) {
+					return fmt.Sprintf("twin pipe (own context): delivered %v, sent %d..%d in order", got, twinBase+1, twinBase+twinN)
+				}
+			default:
+				return fmt.Sprintf("twin pipe (own context): after the end of its stream the receive side is empty but not closed; delivered %v", got)
+			}
+		}
+		return "twin pipe: endless stream"
+	}
 	synctest.Wait()
 	for _, m := range sc.Script {
 		wasCancelled := u.cancelled
@@ -308,6 +379,9 @@ func runUnbound(sc *Scenario) (res Result) {
 	u.mu.Unlock()
 	if len(u.got) != completed {
 		return fail(fmt.Sprintf("%d sends completed but only %v were delivered before the receive side closed (cap=%d, cancelled=%v, closed by sender=%v)", completed, u.got, sc.Caps0(), u.cancelled, u.sndClosed))
+	}
+	if msg := twinCheck(); msg != "" {
+		return fail(msg)
 	}
 	res.Received = len(u.got)
 	res.Backpressure = u.maxBacklog >= 2
